@@ -42,11 +42,18 @@ class Prop(core.Prop):
     ]
 
     def bounds(self, tier):
-        return {'t': [1, 2, 3] + ([4] if tier == 'thorough' else []), 'z': [1, 2],
+        th = tier == 'thorough'
+        return {'t': [1, 2, 3] + ([4, 5] if th else []), 'z': [1, 2],
                 'x': [1, 2, 3, 4],
-                'kinds': [['A', 'M', 'B', 'X', 'Zx', 'S'], ['A', 'M', 'B', 'Zx', 'S']],
-                'forms': ['method', 'stack_files', 'pncmfopen'],
-                'multi': 'ordered pairs and triples of offset copies with lengths 1..2 along the stack dimension'}
+                'kinds': [['A', 'M', 'B', 'X', 'Zx', 'S'], ['A', 'M', 'B', 'Zx', 'S']] +
+                         ([['A', 'M', 'B', 'X', 'Zx', 'S', 'Ch', 'M0']] if th else []),
+                'forms': ['method', 'stack_files', 'pncmfopen', 'method-disk'],
+                'multi': 'ordered pairs and triples%s of offset copies with lengths 1..%d along the stack dimension'
+                         % (' and quadruples' if th else '', 3 if th else 2),
+                'multi_lens': [1, 2, 3] if th else [1, 2],
+                'ioapi': 'IOAPI files (gridded, boundary, masked; %s start instants; 2-%d steps) split along TSTEP '
+                         'by the library slicer into every composition and stacked again' % (
+                             '6' if th else '3', 5 if th else 4)}
 
     def worker_init(self):
         core.load_lib()
@@ -69,17 +76,35 @@ class Prop(core.Prop):
         # ordered pairs / triples of distinct files
         for d in ('t', 'z', 'x'):
             for ki, kinds in enumerate(b['kinds']):
-                for lens_d in itertools.product([1, 2], repeat=3 if tier == 'thorough' else 2):
-                    for unl in (False, True):
-                        yield {'kind': 'multi', 'dim': d, 'kinds': kinds, 'dlens': list(lens_d),
-                               'unl': unl}
+                reps = [3, 4] if tier == 'thorough' else [2]
+                for rep in reps:
+                    for lens_d in itertools.product(b['multi_lens'] if rep < 4 else [1, 2], repeat=rep):
+                        for unl in (False, True):
+                            yield {'kind': 'multi', 'dim': d, 'kinds': kinds, 'dlens': list(lens_d),
+                                   'unl': unl}
+        # IOAPI files split along TSTEP and stacked again (time flags must come back, too)
+        from .. import ioapi_u
+        th = tier == 'thorough'
+        for start in range(6 if th else 3):
+            for nt in ((2, 3, 4, 5) if th else (2, 3, 4)):
+                for kind, masked in (('grid', False), ('grid', True), ('bdy', False)) + (
+                        (('disk', False),) if th else ()):
+                    yield {'kind': 'ioapi', 'rec': ioapi_u.recipe(nt=nt, nl=2, nr=2, nc=2, nv=2, start=start,
+                                                                  kind=kind, masked=masked)}
 
     def expand(self, group):
+        if group['kind'] == 'ioapi':
+            for comp in rops.compositions(group['rec']['nt']):
+                if len(comp) > 1:
+                    yield {'kind': 'ioapi', 'rec': group['rec'], 'pieces': [list(p) for p in comp], 'dim': 'TSTEP',
+                           'form': 'method'}
+            return
         if group['kind'] == 'split':
             n = group['file']['lens'][group['dim']]
             for comp in rops.compositions(n):
                 for splitter in ('ref', 'lib'):
-                    forms = ['method'] if splitter == 'lib' else ['method', 'stack_files', 'pncmfopen']
+                    forms = ['method'] if splitter == 'lib' else ['method', 'stack_files', 'pncmfopen',
+                                                                   'method-disk']
                     for form in forms:
                         yield {'kind': 'split', 'file': group['file'], 'dim': group['dim'],
                                'pieces': [list(p) for p in comp], 'splitter': splitter, 'form': form}
@@ -96,6 +121,17 @@ class Prop(core.Prop):
         P = lib.pnc()
         if form == 'method':
             return reals[0].stack(reals[1:], d)
+        if form == 'method-disk':
+            # the pieces are netCDF-backed files; the receiver is an in-memory copy of the first
+            disk = []
+            for i, r in enumerate(reals):
+                p = os.path.join(self.tmp, 'd%d_%d.nc' % (os.getpid(), i))
+                if os.path.exists(p):
+                    os.unlink(p)
+                r.save(p, format='NETCDF4_CLASSIC', verbose=0).close()
+                disk.append(P.pncopen(p, format='netcdf'))
+            self._open = disk
+            return disk[0].stack(disk[1:], d)
         if form == 'stack_files':
             from PseudoNetCDF.core._functions import stack_files
             return stack_files(list(reals), d)
@@ -111,7 +147,43 @@ class Prop(core.Prop):
             return P.pncmfopen(paths, stackdim=d, format='netcdf')
         raise ValueError(form)
 
+    def run_ioapi(self, case):
+        from .. import ioapi_u
+        real = ioapi_u.build(case['rec'], self.tmp)
+        rf = lib.snap(real)
+        vs = []
+        sig = ('ioapi-split', 'method')
+        scope = dict(form='method', splitter='lib', npieces=len(case['pieces']), dim='TSTEP',
+                     ioapi_kind=case['rec']['kind'], start=case['rec']['start'])
+        states = [rfile.canon(rf)]
+        try:
+            parts = [real.sliceDimensions(TSTEP=slice(a, b)) for a, b in case['pieces']]
+            states += [rfile.canon(lib.snap(p_)) for p_ in parts]
+            got = parts[0].stack(parts[1:], 'TSTEP')
+        except Exception as e:
+            vs.append(viol('in-domain-raises', sig, '%s: %r' % (type(e).__name__, e), exc=type(e).__name__,
+                           **scope))
+            return result('viol', vs, states, len(case['pieces']))
+        wf = lib.wellformed(got)
+        if wf:
+            vs.append(viol('not-wellformed', sig, '; '.join(wf), **scope))
+        snap = lib.snap(got)
+        diffs = rfile.file_diff(snap, rf, attrs=True, gattrs=False, order=False, dtype=True)
+        if diffs:
+            what = 'time-flags-differ' if any('TFLAG' in x for x in diffs) else 'stack-differs'
+            vs.append(viol(what, sig, '; '.join(diffs)[:1500], **scope))
+        for a in ('SDATE', 'STIME', 'TSTEP', 'NVARS', 'NLAYS', 'NROWS', 'NCOLS', 'XORIG', 'YORIG'):
+            if not rfile.attr_equal(snap.attrs.get(a), rf.attrs.get(a)):
+                vs.append(viol('ioapi-attribute-differs', sig, '%s=%r, original %r' % (
+                    a, snap.attrs.get(a), rf.attrs.get(a)), attr=a, **scope))
+        nt = h64('ioapi', sorted(case['rec'].items(), key=str), case['pieces'])
+        return result('viol' if vs else 'ok', vs, states, len(case['pieces']) + 1, nt,
+                      rfile.canon(snap) if not vs else None)
+
     def run_one(self, case):
+        if case['kind'] == 'ioapi':
+            return self.run_ioapi(case)
+        self._open = []
         d = case['dim']
         form = case['form']
         vs = []
@@ -156,7 +228,7 @@ class Prop(core.Prop):
         if wf:
             vs.append(viol('not-wellformed', sig, '; '.join(wf), **scope))
         snap = lib.snap(got, cls='PseudoNetCDFFile')
-        disk = form == 'pncmfopen'
+        disk = form in ('pncmfopen', 'method-disk')
         diffs = rfile.file_diff(snap, exp, attrs=not disk, gattrs=not disk, order=not disk,
                                 dtype=True)
         if diffs:
@@ -184,9 +256,14 @@ class Prop(core.Prop):
                     vs.append(viol('slice-of-stack-differs', sig, '; '.join(dd)[:1200], **scope))
                     break
                 pos += n
-        if hasattr(got, 'close') and disk:
+        if hasattr(got, 'close') and form == 'pncmfopen':
             try:
                 got.close()
+            except Exception:
+                pass
+        for o in self._open:
+            try:
+                o.close()
             except Exception:
                 pass
         nt = h64(before, d, case.get('pieces', case.get('dlens')), form, case.get('splitter')) \
